@@ -57,7 +57,7 @@ Ltac mono H :=
       | |- le_res (let '(_, _) := ?x in _) (let '(_, _) := ?x in _) => destruct x
       end ].
 
-Lemma step_mono vr fns f g : rec_le f g -> rec_le (step vr fns f) (step vr fns g).
+Lemma step_mono fns f g : rec_le f g -> rec_le (step fns f) (step fns g).
 Proof.
   intros H t st. destruct t; cbn [step].
   - (* TEval *)
@@ -68,7 +68,7 @@ Proof.
   - destruct kvs as [|[ke ve] rest]; unfold ev, evs, rv; mono H.
   - (* TExec *)
     destruct s; cbn [exec_stmt];
-      unfold assign_direct, assign_indexed, assign_local_indexed, of_pres, loop_after_body, ev, evs, ex, lift, rv, ro; mono H.
+      unfold exec_call, assign_direct, assign_indexed, assign_local_indexed, fresh_indexed, of_pres, loop_after_body, ev, evs, ex, lift, rv, ro; mono H.
   - destruct ss; unfold ex, ro; mono H.
   - unfold ex, ro; mono H.
   - destruct arms as [|[c b] more]; unfold ev, ro; mono H.
@@ -80,22 +80,22 @@ Proof.
   - destruct entries as [|[k v] more]; [unfold ro; mono H|]. destruct keys as [|key krest]; unfold ro; mono H.
 Qed.
 
-Lemma run_mono_S vr fns fuel : rec_le (run vr fns fuel) (run vr fns (S fuel)).
+Lemma run_mono_S fns fuel : rec_le (run fns fuel) (run fns (S fuel)).
 Proof.
   induction fuel as [|n IH]; [intros t st; left; reflexivity|].
-  change (run vr fns (S (S n))) with (step vr fns (run vr fns (S n))).
-  change (run vr fns (S n)) with (step vr fns (run vr fns n)) at 1.
+  change (run fns (S (S n))) with (step fns (run fns (S n))).
+  change (run fns (S n)) with (step fns (run fns n)) at 1.
   now apply step_mono.
 Qed.
 
-Lemma run_mono vr fns fuel fuel' : (fuel <= fuel')%nat -> rec_le (run vr fns fuel) (run vr fns fuel').
+Lemma run_mono fns fuel fuel' : (fuel <= fuel')%nat -> rec_le (run fns fuel) (run fns fuel').
 Proof.
   induction 1 as [|m Hle IH]; [intros t st; apply le_res_refl|].
   intros t st. destruct (IH t st) as [-> | ->]; [left; reflexivity|]. apply run_mono_S.
 Qed.
 
-Lemma fuel_monotone vr fns fuel fuel' t st r :
-  (fuel <= fuel')%nat -> run vr fns fuel t st = r -> r <> OutOfFuel -> run vr fns fuel' t st = r.
+Lemma fuel_monotone fns fuel fuel' t st r :
+  (fuel <= fuel')%nat -> run fns fuel t st = r -> r <> OutOfFuel -> run fns fuel' t st = r.
 Proof.
-  intros Hle Hr Hne. destruct (run_mono vr fns fuel fuel' Hle t st) as [E|E]; congruence.
+  intros Hle Hr Hne. destruct (run_mono fns fuel fuel' Hle t st) as [E|E]; congruence.
 Qed.
